@@ -4,7 +4,9 @@ import Vet.Props.C19
 #print axioms Vet.Unpack.C19_retry
 #print axioms Vet.Unpack.C19_marker_partial
 #print axioms Vet.Unpack.C19_retry_partial
-#print axioms Vet.Unpack.C19_complete_is_ok_partial2
+#print axioms Vet.Unpack.C19_complete_is_ok_partial3
+#print axioms Vet.Unpack.C19_complete_marker_dir_not_ok
+#print axioms Vet.Unpack.C19_complete_is_ok_partial2_counterexample
 #print axioms Vet.Unpack.C19_fixed_marker
 #print axioms Vet.Unpack.C19_fixed_marker_symlink
 #print axioms Vet.Unpack.C19_counterexample_symlink
